@@ -18,6 +18,8 @@ PROPS = {
             {"mode": "nofault", "quick": {"runs": 1500}, "thorough": {"runs": 60000}},
             {"mode": "workload-R", "quick": {"runs": 2000}, "thorough": {"runs": 100000}},
             {"mode": "nofault-R", "quick": {"runs": 1000}, "thorough": {"runs": 50000}},
+            {"mode": "lockretry", "quick": {"runs": 1500}, "thorough": {"runs": 60000}},
+            {"mode": "lockretry-R", "quick": {"runs": 1000}, "thorough": {"runs": 40000}},
             {"mode": "directed", "quick": {"runs": 64}, "thorough": {"runs": 64}},
         ],
         "rule": ("each evaluation is one simulated run: 2-6 generated transaction programs (optimistic/pessimistic; get, batch-get, "
@@ -310,6 +312,13 @@ NOT_APPLICABLE = [
     {"property_id": "C08", "reason": "pure function of an operation sequence on a single-threaded in-memory structure: no schedule, clock, I/O, fault or second party for a simulator to control (DESIGN.md section 4)"},
     {"property_id": "C19", "reason": "pure functions of their input (memory-comparable codecs): nothing for a scheduler, clock or fault to act on (DESIGN.md section 4)"},
 ]
+
+# quick tier of the transactional engine: four times the first budgets (a run costs about 1 ms of a core; every property
+# still finishes well under a minute on 16 cores)
+for _p in ("C01", "C02", "C03", "C04", "C05", "C06", "C07", "C14"):
+    for _m in PROPS[_p]["modes"]:
+        if _m["mode"] != "directed":
+            _m["quick"]["runs"] *= 4
 
 ENGINES = [
     {"name": "txnsim", "path": "sim/engines/txnsim", "serves_properties": ["C01", "C02", "C03", "C04", "C05", "C06", "C07", "C14"],
